@@ -486,8 +486,8 @@ def _atr_spec(draw):
 
 def subchecks(tier):
     return [
-        Sub("extrema", _extrema_spec(), run_extrema, quick=6000, thorough=300000),
-        Sub("atr", _atr_spec(), run_atr, quick=5000, thorough=200000),
+        Sub("extrema", _extrema_spec(), run_extrema, quick=12000, thorough=300000),
+        Sub("atr", _atr_spec(), run_atr, quick=10000, thorough=200000),
         # last, so that a finding here does not cut the other searches short
         Sub("atr_stale", stale_strategy(), run_atr_stale, quick=1200, thorough=30000),
     ]
